@@ -593,6 +593,17 @@ def materialise(spec):
         out["text"] = pdbfmt.to_text(out["items"])
     if p.get("icode_prob") and random.Random(spec["seed"] + 17).random() < p["icode_prob"]:
         apply_icodes(out, random.Random(spec["seed"] + 18))
+    if p.get("offset_prob") and "items" in out and random.Random(spec["seed"] + 22).random() < p["offset_prob"]:
+        # the whole structure far from the origin: coordinates that fill their eight columns (<= -100, >= 1000)
+        r22 = random.Random(spec["seed"] + 23)
+        off = [r22.choice([0.0, -150.0, -480.0, 1000.0, 2500.0, 0.0]) for _ in range(3)]
+        if not any(off):
+            off[r22.randrange(3)] = r22.choice([-150.0, 1000.0])
+        for it in out["items"]:
+            if isinstance(it, dict):
+                it["x"], it["y"], it["z"] = round(it["x"] + off[0], 3), round(it["y"] + off[1], 3), round(it["z"] + off[2], 3)
+        out["text"] = pdbfmt.to_text(out["items"])
+        out.setdefault("meta", {})["offset"] = off
     if p.get("no_element_prob") and "items" in out and random.Random(spec["seed"] + 21).random() < p["no_element_prob"]:
         # files without the optional columns 67-80 (segment id, element, charge), as many programs write them
         for it in out["items"]:
